@@ -155,14 +155,14 @@ theorem sugPlan_crjust (v : World) (k : Key2) (env : SugEnv) (now : Nat) : (sugP
 theorem trialPlan_crjust (v : World) (k : Key2) (now : Nat) : (trialPlan v k now).All CrJust :=
   (trialPlan_calls v k now).mono (fun c hc => by cases c <;> first | trivial | exact absurd hc id)
 
-/-- the Experiment `k` carries resume policy `r`, and a completed Experiment is Created -/
-def XI (k : Key2) (r : Resume) (w : World) : Prop :=
-  ∀ e ∈ w.exps, (e.key = k → e.cfg.resume = r) ∧ (isCompleted e.st.conds = true → Cr e.st.conds)
+/-- the Experiment `k` carries resume policy `r` (when one is named), and a completed Experiment is Created -/
+def XI (k : Key2) (r : Option Resume) (w : World) : Prop :=
+  ∀ e ∈ w.exps, (e.key = k → ∀ r', r = some r' → e.cfg.resume = r') ∧ (isCompleted e.st.conds = true → Cr e.st.conds)
 
-theorem xi_same {k : Key2} {r : Resume} {w w' : World} (e : w'.exps = w.exps) (h : XI k r w) : XI k r w' := by
+theorem xi_same {k : Key2} {r : Option Resume} {w w' : World} (e : w'.exps = w.exps) (h : XI k r w) : XI k r w' := by
   unfold XI; rw [e]; exact h
 
-theorem xi_upd {k : Key2} {r : Resume} {w : World} (k' : Key2) (f : ExpO → ExpO) (hkey : ∀ e, (f e).key = e.key)
+theorem xi_upd {k : Key2} {r : Option Resume} {w : World} (k' : Key2) (f : ExpO → ExpO) (hkey : ∀ e, (f e).key = e.key)
     (hcfg : ∀ e, (f e).cfg = e.cfg) (hcr : ∀ e, (isCompleted e.st.conds = true → Cr e.st.conds) → isCompleted (f e).st.conds = true → Cr (f e).st.conds)
     (h : XI k r w) : XI k r (updExp w k' f) := by
   intro e' he'
@@ -170,10 +170,10 @@ theorem xi_upd {k : Key2} {r : Resume} {w : World} (k' : Key2) (f : ExpO → Exp
   simp only [List.mem_map] at he'
   obtain ⟨e, he, rfl⟩ := he'
   split
-  · exact ⟨fun hk => by rw [hcfg]; exact (h e he).1 (by rw [← hkey]; exact hk), hcr e (h e he).2⟩
+  · exact ⟨fun hk r' hr' => by rw [hcfg]; exact (h e he).1 (by rw [← hkey]; exact hk) r' hr', hcr e (h e he).2⟩
   · exact h e he
 
-theorem apply_pres_XI {k : Key2} {r : Resume} {w w' : World} {c : Call} (hX : XI k r w) (hJ : CrJust c)
+theorem apply_pres_XI {k : Key2} {r : Option Resume} {w w' : World} {c : Call} (hX : XI k r w) (hJ : CrJust c)
     (h : applyCall w c = .ok w') : XI k r w' := by
   cases c with
   | expStatus k' rv st =>
@@ -211,13 +211,13 @@ theorem apply_pres_XI {k : Key2} {r : Resume} {w w' : World} {c : Call} (hX : XI
   | dbDelete t => exact xi_same (apply_exps_same h trivial) hX
   | dbReport t e => exact xi_same (apply_exps_same h trivial) hX
 
-def SInvX (k : Key2) (r : Resume) (s : Sim) : Prop := XI k r s.cur ∧ ∀ (i : Nat) (h : World), s.hist[i]? = some h → XI k r h
+def SInvX (k : Key2) (r : Option Resume) (s : Sim) : Prop := XI k r s.cur ∧ ∀ (i : Nat) (h : World), s.hist[i]? = some h → XI k r h
 
-theorem exec_XI {k : Key2} {r : Resume} {w0 : World} (f : Faults) (p : Prog) (hp : p.All CrJust) (hX : XI k r w0) :
+theorem exec_XI {k : Key2} {r : Option Resume} {w0 : World} (f : Faults) (p : Prog) (hp : p.All CrJust) (hX : XI k r w0) :
     XI k r (exec f p w0 0 []).w :=
   exec_preserves (I := XI k r) (P := CrJust) f (fun _ _ _ hI hc happ => apply_pres_XI hI hc happ) p w0 0 [] hp hX
 
-theorem stepWorld_okX {k : Key2} {r : Resume} {s : Sim} (hI : SInvX k r s) (op : Op) : XI k r (stepWorld s op).1 := by
+theorem stepWorld_okX {k : Key2} {r : Option Resume} {s : Sim} (hI : SInvX k r s) (op : Op) : XI k r (stepWorld s op).1 := by
   have hX := hI.1
   cases op with
   | recExp k' vE vT vS f => exact exec_XI f _ (expPlan_crjust _ k' s.opIndex) hX
@@ -250,7 +250,7 @@ theorem stepWorld_okX {k : Key2} {r : Resume} {s : Sim} (hI : SInvX k r s) (op :
       · split <;> exact xi_same rfl hX
   | noop => exact hX
 
-theorem step_invX {k : Key2} {r : Resume} {s : Sim} (hI : SInvX k r s) (op : Op) : SInvX k r (step s op).1 := by
+theorem step_invX {k : Key2} {r : Option Resume} {s : Sim} (hI : SInvX k r s) (op : Op) : SInvX k r (step s op).1 := by
   have hW := stepWorld_okX hI op
   unfold step
   refine ⟨hW, ?_⟩
@@ -260,18 +260,18 @@ theorem step_invX {k : Key2} {r : Resume} {s : Sim} (hI : SInvX k r s) (op : Op)
   · rw [if_pos hi] at hh; cases hh; exact hW
   · rw [if_neg hi] at hh; exact hI.2 i h hh
 
-theorem run_invX {k : Key2} {r : Resume} (ops : List Op) : ∀ {s : Sim}, SInvX k r s → SInvX k r (run s ops) := by
+theorem run_invX {k : Key2} {r : Option Resume} (ops : List Op) : ∀ {s : Sim}, SInvX k r s → SInvX k r (run s ops) := by
   induction ops with
   | nil => intro s h; exact h
   | cons op r' ih => intro s h; exact ih (step_invX h op)
 
-theorem init_invX (k : Key2) (r : Resume) (es : List ExpInit) (hres : ∀ ei ∈ es, ei.key = k → ei.cfg.resume = r) :
-    SInvX k r (Sim.init es) := by
+theorem init_invX (k : Key2) (r : Option Resume) (es : List ExpInit)
+    (hres : ∀ ei ∈ es, ei.key = k → ∀ r', r = some r' → ei.cfg.resume = r') : SInvX k r (Sim.init es) := by
   have hX : XI k r (Sim.init es).cur := by
     intro e he
     simp only [Sim.init, List.mem_map] at he
     obtain ⟨ei, hei, rfl⟩ := he
-    exact ⟨fun hk => hres ei hei hk, fun hc => by cases hc⟩
+    exact ⟨fun hk r' hr' => hres ei hei hk r' hr', fun hc => by cases hc⟩
   refine ⟨hX, ?_⟩
   intro i h hh
   simp only [Sim.init] at hh
@@ -280,6 +280,25 @@ theorem init_invX (k : Key2) (r : Resume) (es : List ExpInit) (hres : ∀ ei ∈
     | zero => simp at hh; exact hh.symm
     | succ j => simp at hh
   rw [this]; exact hX
+
+/-- **C03_completed_is_created_world**: over every schedule (no hypothesis) an Experiment that carries a verdict is Created. -/
+theorem C03_completed_is_created_world (es : List ExpInit) (ops : List Op) :
+    let s := run (Sim.init es) ops
+    (∀ e ∈ s.cur.exps, isCompleted e.st.conds = true → Cond.has e.st.conds .created = true) ∧
+    (∀ (i : Nat) (h : World), s.hist[i]? = some h → ∀ e ∈ h.exps, isCompleted e.st.conds = true → Cond.has e.st.conds .created = true) := by
+  intro s
+  have hX : SInvX { ns := "", name := "" } none s := run_invX ops (init_invX _ none es (fun _ _ _ _ hr' => by cases hr'))
+  exact ⟨fun e he => (hX.1 e he).2, fun i h hh e he => (hX.2 i h hh e he).2⟩
+
+/-- **C03_frozen_verdict_world_created**: `C03_frozen_verdict_world` without its Created premise. -/
+theorem C03_frozen_verdict_world_created (k : Key2) (es : List ExpInit) (ops : List Op) :
+    let s := run (Sim.init es) ops
+    ∀ (i : Nat) (h : World) (eh : ExpO), s.hist[i]? = some h → findExp h k = some eh →
+      isCompleted eh.st.conds = true → restartable eh.st.conds eh.cfg.resume = false →
+      ∃ ec, findExp s.cur k = some ec ∧ ec.st.conds = eh.st.conds ∧ ec.st.completion = eh.st.completion ∧ ec.cfg = eh.cfg := by
+  intro s i h eh hh he h2 h3
+  exact C03_frozen_verdict_world k es ops i h eh hh he
+    ((C03_completed_is_created_world es ops).2 i h hh eh (findExp_mem he) h2) h2 h3
 
 /-- **C04_quiescent_verdict_on_schedules_resume**: for an Experiment created with resume policy Never or LongRunning and a
     `maxTrialCount ≥ 1` that is not edited, on every schedule without Trial deletions: if in the reached store no controller
@@ -320,11 +339,12 @@ theorem C04_quiescent_verdict_on_schedules_resume (k : Key2) (m : Int) (hm1 : 1 
       rw [this.2] at hsucc; cases hsucc
     | never =>
       obtain ⟨i, h, eh, hh, heh, hcompl⟩ := C16_succeeded_only_after_verdict k es ops sg hsg hsucc
-      have hX : SInvX k .never (run (Sim.init es) ops) := run_invX ops (init_invX k .never es hres)
+      have hX : SInvX k (some .never) (run (Sim.init es) ops) :=
+        run_invX ops (init_invX k (some .never) es (fun ei hei hk r' hr' => by cases hr'; exact hres ei hei hk))
       have hmem : eh ∈ h.exps := findExp_mem heh
       obtain ⟨hpol, hcr⟩ := hX.2 i h hh eh hmem
       have hnr : restartable eh.st.conds eh.cfg.resume = false := by
-        rw [hpol (findExp_key heh)]; unfold restartable; simp
+        rw [hpol (findExp_key heh) _ rfl]; unfold restartable; simp
       obtain ⟨ec, hec, hconds, _, _⟩ := C03_frozen_verdict_world k es ops i h eh hh heh (hcr hcompl) hcompl hnr
       have : ec = e := by
         have h1 : findExp w k = some ec := hec
